@@ -822,9 +822,9 @@ func run(c *engine.Ctx) {
 	}
 	for _, n := range classN {
 		parts := map[int]int{6: 1, 7: 8, 8: 48}[n]
-		relab := c.Pick(2, 6)
+		relab := c.Pick(2, 8)
 		if n == 8 {
-			relab = 2
+			relab = 4
 		}
 		for part := 0; part < parts; part++ {
 			n, part := n, part
@@ -849,7 +849,7 @@ func run(c *engine.Ctx) {
 	}
 
 	// 3. every n in 0..70: fixed shapes and seeded graphs
-	perN := c.Pick(10, 70)
+	perN := c.Pick(10, 200)
 	for n := 0; n <= 70; n++ {
 		n := n
 		unit(c, fmt.Sprintf("sizes/n=%d", n), func(m *mon) {
@@ -918,7 +918,7 @@ func run(c *engine.Ctx) {
 	// last vertex isolated, the last-but-one not, and enough room in the last byte
 	for _, n := range []int{2, 4, 8, 16, 32, 64, 3, 7, 9, 15, 17, 31, 33} {
 		n := n
-		cnt := c.Pick(300, 3000)
+		cnt := c.Pick(300, 10000)
 		unit(c, fmt.Sprintf("padding/n=%d", n), func(m *mon) {
 			for i := 0; i < cnt; i++ {
 				r := c.Rand("padding", n*100000+i)
@@ -1054,7 +1054,7 @@ func run(c *engine.Ctx) {
 			})
 		}
 	}
-	np := c.Pick(600, 6000)
+	np := c.Pick(600, 20000)
 	for u := 0; u*100 < np; u++ {
 		u := u
 		unit(c, fmt.Sprintf("prufer/seeded/%d", u), func(m *mon) {
@@ -1111,7 +1111,7 @@ func run(c *engine.Ctx) {
 		c.Obs("multicode:small_sequences", cnt)
 		c.Obs("exhaustive:all sequences of <= 3 Multicode records over 9 small graphs (n=0,1 included)", 1)
 	})
-	nc := c.Pick(200, 2000)
+	nc := c.Pick(200, 5000)
 	for u := 0; u*50 < nc; u++ {
 		u := u
 		unit(c, fmt.Sprintf("multicode/concat/seeded/%d", u), func(m *mon) {
